@@ -147,7 +147,7 @@ def main():
     cov['samples'] = samples[:12] or [{'note': 'no engine ran'}]
     cov['checker_cmd'] = ' ; '.join(cmds)[:4000] if cmds else './check %s' % pid
     cov['explanation'] = cfg.get('explanation', '')
-    cov['proved_clauses'] = cfg.get('proved', []) + cfg.get('proved_extra', [])
+    cov['proved_clauses'] = cfg.get('proved', []) + cfg.get('proved_extra', []) + cfg.get('proved_extra2', [])
     cov['bounded_clauses'] = cfg.get('bounded', [])
     cov['trusted_base'] += cfg.get('trusted', []) + cfg.get('trusted_extra', [])
     ev['assumptions'] = cfg.get('assumptions', []) + props.ASSUMPTIONS_COMMON
